@@ -370,6 +370,9 @@ func c20Records(c c20Case) (reached string, bad string) {
 	ctx := context.Background()
 	_, _ = cs.CoreV1().Secrets("default").Create(ctx, &v1.Secret{ObjectMeta: metav1.ObjectMeta{Name: "sh.helm.release.v1.r.v2", Labels: labels}, Type: "helm.sh/release.v1", Data: map[string][]byte{"release": body}}, metav1.CreateOptions{})
 	_, _ = cs.CoreV1().ConfigMaps("default").Create(ctx, &v1.ConfigMap{ObjectMeta: metav1.ObjectMeta{Name: "sh.helm.release.v1.r.v2", Labels: labels}, Data: map[string]string{"release": string(body)}}, metav1.CreateOptions{})
+	lonely := map[string]string{"name": "lonely", "owner": "helm", "status": "deployed", "version": "1"}
+	_, _ = cs.CoreV1().Secrets("default").Create(ctx, &v1.Secret{ObjectMeta: metav1.ObjectMeta{Name: "sh.helm.release.v1.lonely.v1", Labels: lonely}, Type: "helm.sh/release.v1", Data: map[string][]byte{"release": body}}, metav1.CreateOptions{})
+	_, _ = cs.CoreV1().ConfigMaps("default").Create(ctx, &v1.ConfigMap{ObjectMeta: metav1.ObjectMeta{Name: "sh.helm.release.v1.lonely.v1", Labels: lonely}, Data: map[string]string{"release": string(body)}}, metav1.CreateOptions{})
 	for _, d := range []driver.Driver{sec, cfg} {
 		st := storage.Init(d)
 		_, _ = st.Get("r", 2)
@@ -383,6 +386,14 @@ func c20Records(c c20Case) (reached string, bad string) {
 		h, err := st.History("r")
 		if err == nil && c20CountGood(h) < 2 {
 			return "", fmt.Sprintf("records/history-loses-readable-records/%s", d.Name())
+		}
+		// a release whose only stored record is the unreadable one
+		for _, f := range []func(){
+			func() { _, _ = st.Last("lonely") }, func() { _, _ = st.History("lonely") }, func() { _, _ = st.Deployed("lonely") },
+			func() { _, _ = st.DeployedAll("lonely") }, func() { _, _ = st.Get("lonely", 1) },
+			func() { _, _ = st.Query(map[string]string{"name": "lonely", "owner": "helm"}) },
+		} {
+			f()
 		}
 		_, _ = st.Last("r")
 		_, _ = st.Deployed("r")
@@ -635,7 +646,14 @@ func c20GenCase(t *rapid.T) c20Case {
 		return one("values", []byte("a:\n  b:\n    c: 1\nlist: [1, 2]\n"), map[string]interface{}{"a": map[string]interface{}{"b": map[string]interface{}{"c": float64(1)}}, "list": []interface{}{float64(1)}})
 	case "index":
 		entry := map[string]interface{}{"name": "foo", "version": "1.0.0", "urls": []interface{}{"https://x/foo-1.0.0.tgz"}, "apiVersion": "v2", "created": "2020-01-01T00:00:00Z", "digest": "abc"}
-		idx := map[string]interface{}{"apiVersion": "v1", "generated": "2020-01-01T00:00:00Z", "entries": map[string]interface{}{"foo": []interface{}{entry, map[string]interface{}{"name": "foo", "version": "0.9.0-rc.1"}}, "bar": []interface{}{}}}
+		foo := []interface{}{entry, map[string]interface{}{"name": "foo", "version": "0.9.0-rc.1"}}
+		// runs of adjacent unusable records (null, empty, no version, bad version, wrong types) among usable ones
+		bad := []interface{}{nil, map[string]interface{}{}, map[string]interface{}{"name": "foo"}, map[string]interface{}{"name": "foo", "version": "not-semver"}, map[string]interface{}{"name": "foo", "version": "1.0"}, "str", []interface{}{}, map[string]interface{}{"name": nil, "version": nil}, map[string]interface{}{"name": "foo", "version": "2.0.0", "urls": nil}, map[string]interface{}{"name": "foo", "version": "3.0.0", "urls": []interface{}{"u"}}}
+		for i, n := 0, rapid.IntRange(0, 5).Draw(t, "nBadRecords"); i < n; i++ {
+			at := rapid.IntRange(0, len(foo)).Draw(t, "badAt")
+			foo = append(foo[:at], append([]interface{}{rapid.SampledFrom(bad).Draw(t, "badRecord")}, foo[at:]...)...)
+		}
+		idx := map[string]interface{}{"apiVersion": "v1", "generated": "2020-01-01T00:00:00Z", "entries": map[string]interface{}{"foo": foo, "bar": []interface{}{}}}
 		return one("index", c20YAML(idx), idx)
 	case "manifests":
 		return one("manifest", []byte("---\n# Source: c/templates/a.yaml\napiVersion: v1\nkind: ConfigMap\nmetadata:\n  name: a\n  annotations:\n    helm.sh/hook: pre-install\n    helm.sh/hook-weight: \"5\"\n---\nkind: Secret\nmetadata:\n  name: b\n"), nil)
